@@ -134,7 +134,7 @@ claim("C18",
       "Target::from_str maps 'sql.any' to 'no dialect', 'sql.<name>' to the dialect strum knows under <name>, and everything else to an error "
       "(FS1-FS4); Target::default() is Sql(None) (TD1). the resolver side: the header is one more declaration (`prql`) of the root module, and Module::lookup returns the direct hits plus the hits through EVERY redirect whatever the module itself declares (resolve_guards LK1-2), so a header does not take std names away; the parser is handed every token but comments and line wraps (token_filter TF1). no kind of declaration needs a line break of its own in front of it, so the first declaration may stand directly under the header line (stmt_newlines ST1: a table over the combinator chain of module_contents). Equality of 'option x' and 'header x' follows: both routes yield the same Dialect value.",
       "strum's Dialect::from_str is an uninterpreted partial function (the name table itself is derive output); HashMap lookup of the header "
-      "and translate_query are external; the resolver-independence clause is argued, not checked.")
+      "and translate_query are external; the resolver-independence clause rests on Module::lookup's contract (LK1-2), the token filter (TF1) and the table unit over the statement grammar (ST1; ST2 is a recorded finding): it is not proved end to end.")
 
 prop("C14", ["prql_prec", "fmt_strings", "fmt_interp", "fmt_names", "interp_ident", "fmt_width", "lex_strings", "fmt_entry", "literals"],
      select={"literals": lambda n: n.split(".", 1)[1] in ("LN1", "LN2", "LN3", "number_literal_slice.safety")},
